@@ -3,7 +3,7 @@
    Proofs/EditLayoutProofs.v.  The model (Model/Edit.v) is hand-written from urwid/widget/edit.py,
    urwid/numedit.py and text_layout.calc_coords / calc_line_pos / calc_pos / shift_line and is tied
    to the code by the per-event correspondence of the harness.  Everything is str mode (lists of
-   code points).  [cw] = str_util.get_char_width and [upper] = str.upper are parameters; the layout
+   code points).  [cw] = str_util.get_char_width and [upper] = str.upper (of a character) and [lower] = str.lower (of a string) are parameters; the layout
    of the displayed text is DATA carried by each event (any layout whatsoever in the theorems of
    part 1, a layout row of a stated shape in part 2). *)
 From Coq Require Import ZArith List Bool Lia.
@@ -16,16 +16,16 @@ Open Scope Z_scope.
 (* --- pos_inv: the offset is between 0 and the text length after every event of every history,
        from every initial widget (any caption, text, requested position, flags, mask, variant) --- *)
 Theorem pos_inv :
-  forall cw upper cap txt p ml tab mk v es,
+  forall cw upper lower cap txt p ml tab mk v es,
     Forall (fun o => 0 <= pos (fst (fst o)) <= zlen (text (fst (fst o))))
-           (snd (run cw upper (init cap txt p ml tab mk v) es)).
-Proof. intros. exact (proj1 (pos_inv_run cw upper es _ (init_inv cap txt p ml tab mk v))). Qed.
+           (snd (run cw upper lower (init cap txt p ml tab mk v) es)).
+Proof. intros. exact (proj1 (pos_inv_run cw upper lower es _ (init_inv cap txt p ml tab mk v))). Qed.
 Print Assumptions pos_inv.
 
 Theorem pos_inv_any_state :
-  forall cw upper es s, Inv s ->
-    Forall (fun o => Inv (fst (fst o))) (snd (run cw upper s es)) /\ Inv (fst (run cw upper s es)).
-Proof. intros cw upper es s. exact (pos_inv_run cw upper es s). Qed.
+  forall cw upper lower es s, Inv s ->
+    Forall (fun o => Inv (fst (fst o))) (snd (run cw upper lower s es)) /\ Inv (fst (run cw upper lower s es)).
+Proof. intros cw upper lower es s. exact (pos_inv_run cw upper lower es s). Qed.
 Print Assumptions pos_inv_any_state.
 
 (* --- edit_refines_ref: after EVERY event of EVERY history the model's state (text, offset,
@@ -36,28 +36,28 @@ Print Assumptions pos_inv_any_state.
        key strings, tab, enter, left, right, up, down, backspace, delete, home, end; clicks with any
        button; renders; get_pref_col; set_edit_pos. --- *)
 Theorem edit_refines_ref :
-  forall cw upper es s, Inv s ->
-    map (fun o => (fst (fst o), snd o)) (snd (run cw upper s es)) = ref_run cw upper s es.
-Proof. intros cw upper es s. exact (refines_run cw upper es s). Qed.
+  forall cw upper lower es s, Inv s ->
+    map (fun o => (fst (fst o), snd o)) (snd (run cw upper lower s es)) = ref_run cw upper lower s es.
+Proof. intros cw upper lower es s. exact (refines_run cw upper lower es s). Qed.
 Print Assumptions edit_refines_ref.
 
 Theorem edit_refines_ref_from_init :
-  forall cw upper cap txt p ml tab mk v es,
+  forall cw upper lower cap txt p ml tab mk v es,
     map (fun o => (text (fst (fst o)), pos (fst (fst o)), snd o))
-        (snd (run cw upper (init cap txt p ml tab mk v) es))
+        (snd (run cw upper lower (init cap txt p ml tab mk v) es))
     = map (fun o => (text (fst o), pos (fst o), snd o))
-          (ref_run cw upper (init cap txt p ml tab mk v) es).
+          (ref_run cw upper lower (init cap txt p ml tab mk v) es).
 Proof.
-  intros. rewrite <- (refines_run cw upper es _ (init_inv cap txt p ml tab mk v)).
+  intros. rewrite <- (refines_run cw upper lower es _ (init_inv cap txt p ml tab mk v)).
   rewrite map_map. reflexivity.
 Qed.
 Print Assumptions edit_refines_ref_from_init.
 
 (* one event, spelled out: the reference step, the signal chain, no signal when unhandled *)
 Theorem edit_step_refines_ref :
-  forall cw upper s e, Inv s ->
-    let '(s', sg, r) := step cw upper s e in
-    ref_step cw upper s e = (s', r) /\ chain (text s) sg (text s') /\
+  forall cw upper lower s e, Inv s ->
+    let '(s', sg, r) := step cw upper lower s e in
+    ref_step cw upper lower s e = (s', r) /\ chain (text s) sg (text s') /\
     (r = Ok RUnhandled -> sg = []) /\ Inv s'.
 Proof. exact step_ref. Qed.
 Print Assumptions edit_step_refines_ref.
@@ -67,21 +67,21 @@ Print Assumptions edit_step_refines_ref.
        from the text before the event to the text after it; in particular a changed text was
        announced, and an event that changes nothing and is unhandled emits nothing --- *)
 Theorem signals_order :
-  forall cw upper es s, Inv s ->
+  forall cw upper lower es s, Inv s ->
     all_steps (fun s0 o => chain (text s0) (snd (fst o)) (text (fst (fst o))) /\
                            (snd o = Ok RUnhandled -> snd (fst o) = []))
-              s (snd (run cw upper s es)).
-Proof. intros cw upper es s. exact (signals_run cw upper es s). Qed.
+              s (snd (run cw upper lower s es)).
+Proof. intros cw upper lower es s. exact (signals_run cw upper lower es s). Qed.
 Print Assumptions signals_order.
 
 (* --- unhandled_returned --- *)
 (* (a) whatever the key: if keypress returns it, text and offset are untouched and nothing was signalled *)
 Theorem unhandled_returned :
-  forall cw upper s k w lay, Inv s ->
-    snd (keypress cw upper s k w lay) = Ok RUnhandled ->
-    text (fst (fst (keypress cw upper s k w lay))) = text s /\
-    pos (fst (fst (keypress cw upper s k w lay))) = pos s /\
-    snd (fst (keypress cw upper s k w lay)) = [].
+  forall cw upper lower s k w lay, Inv s ->
+    snd (keypress cw upper lower s k w lay) = Ok RUnhandled ->
+    text (fst (fst (keypress cw upper lower s k w lay))) = text s /\
+    pos (fst (fst (keypress cw upper lower s k w lay))) = pos s /\
+    snd (fst (keypress cw upper lower s k w lay)) = [].
 Proof. exact unhandled_untouched. Qed.
 Print Assumptions unhandled_returned.
 
@@ -89,54 +89,57 @@ Print Assumptions unhandled_returned.
        keys, control characters, multi-character names -, tab without allow_tab, enter without
        multiline) come back and the whole state is untouched *)
 Theorem unused_keys_come_back :
-  forall cw upper s k w lay,
+  forall cw upper lower s k w lay,
     match k with
-    | KText cs => valid_char cw upper s cs = Ok false
+    | KText cs => valid_char cw upper lower s cs = Ok false
     | KTab => allow_tab s = false
     | KEnter => multiline s = false
     | _ => False
     end ->
-    keypress cw upper s k w lay = (s, [], Ok RUnhandled).
+    keypress cw upper lower s k w lay = (s, [], Ok RUnhandled).
 Proof. exact unused_keys_returned. Qed.
 Print Assumptions unused_keys_come_back.
 
 (* --- numeric_alphabet_inv --- *)
 (* IntEdit: digits only, along every history *)
 Theorem numeric_alphabet_inv_IntEdit :
-  forall cw upper es s,
+  forall cw upper lower es s,
     var s = VInt -> allow_tab s = false -> multiline s = false ->
     num_ok int_alpha false (text s) = true -> Inv s ->
-    Forall (fun o => num_ok int_alpha false (text (fst (fst o))) = true) (snd (run cw upper s es)).
-Proof. intros cw upper es s. exact (numeric_alphabet_int cw upper es s). Qed.
+    Forall (fun o => num_ok int_alpha false (text (fst (fst o))) = true) (snd (run cw upper lower s es)).
+Proof. intros cw upper lower es s. exact (numeric_alphabet_int cw upper lower es s). Qed.
 Print Assumptions numeric_alphabet_inv_IntEdit.
 
-(* NumEdit / IntegerEdit / FloatEdit: every character has its ASCII upper case in [allowed], apart
-   from one leading '-' when negatives are allowed - PROVIDED str.upper maps nothing foreign into
-   the allowed string (upper_honest). *)
+(* NumEdit / IntegerEdit / FloatEdit, NO hypothesis on str.upper / str.lower: along every history every
+   character c of the text (apart from one leading '-' when negatives are allowed) passed the test
+   the code applies - upper(c) occurs in the allowed string and c is upper(c) or lower(upper(c)) - *)
+Theorem numeric_alphabet_inv_NumEdit_code :
+  forall cw upper lower es s al tr ng,
+    var s = VNum al tr ng -> allow_tab s = false -> multiline s = false ->
+    num_ok (code_alpha upper lower al) ng (text s) = true -> Inv s ->
+    Forall (fun o => num_ok (code_alpha upper lower al) ng (text (fst (fst o))) = true)
+           (snd (run cw upper lower s es)).
+Proof. intros cw upper lower es s al tr ng. exact (numeric_alphabet_num_code cw upper lower es s al tr ng). Qed.
+Print Assumptions numeric_alphabet_inv_NumEdit_code.
+
+(* ... and in terms of the alphabet itself (c is in the allowed string or its ASCII upper case is):
+   what remains to be known about the case mappings is exactly [lower_honest]: a character that
+   is the lower-case form of its own upper-case form, the latter occurring in the allowed string,
+   is in the alphabet.  (The c = upper(c) half needs nothing.)  The harness checks lower_honest for the
+   real str.upper / str.lower over ALL code points for every alphabet it uses, every run. *)
 Theorem numeric_alphabet_inv_NumEdit :
-  forall cw upper es s al tr ng,
-    var s = VNum al tr ng -> upper_honest upper al ->
+  forall cw upper lower es s al tr ng,
+    var s = VNum al tr ng -> lower_honest upper lower al ->
     allow_tab s = false -> multiline s = false ->
     num_ok (num_alpha al) ng (text s) = true -> Inv s ->
-    Forall (fun o => num_ok (num_alpha al) ng (text (fst (fst o))) = true) (snd (run cw upper s es)).
-Proof. intros cw upper es s al tr ng. exact (numeric_alphabet_num cw upper es s al tr ng). Qed.
+    Forall (fun o => num_ok (num_alpha al) ng (text (fst (fst o))) = true) (snd (run cw upper lower s es)).
+Proof. intros cw upper lower es s al tr ng. exact (numeric_alphabet_num cw upper lower es s al tr ng). Qed.
 Print Assumptions numeric_alphabet_inv_NumEdit.
 
-(* The statement WITHOUT the hypothesis on upper is the property's clause for the real widget; it is
-   false as soon as upper maps U+017F to "S", which str.upper does (IntegerEdit(base=36) accepts
-   the key and value() raises): the harness replays this witness on the implementation and
-   reports it (known finding C10-numedit-upper). *)
-Definition numeric_alphabet_inv_full (cw : Z -> Z) (upper : Z -> list Z) : Prop :=
-  numeric_alphabet_statement cw upper.
-Theorem numeric_alphabet_inv_refuted :
-  forall cw upper, upper 383 = [83] -> ~ numeric_alphabet_inv_full cw upper.
-Proof. exact numeric_alphabet_refuted. Qed.
-Print Assumptions numeric_alphabet_inv_refuted.
-
-(* the hypothesis is satisfiable: an ASCII-only upper-casing is honest for every allowed string *)
-Theorem upper_hypothesis_satisfiable : forall al, upper_honest (fun c => [ascii_upper c]) al.
-Proof. exact upper_honest_ascii. Qed.
-Print Assumptions upper_hypothesis_satisfiable.
+(* the hypothesis is satisfiable: ASCII upper-casing with any lower-casing, every allowed string *)
+Theorem lower_hypothesis_satisfiable : forall lower al, lower_honest (fun c => [ascii_upper c]) lower al.
+Proof. exact lower_honest_ascii. Qed.
+Print Assumptions lower_hypothesis_satisfiable.
 
 (* the leading-zero loop of IntEdit / NumEdit never runs out of the fuel the model gives it *)
 Theorem trim_loop_has_fuel :
@@ -150,10 +153,10 @@ Print Assumptions trim_loop_has_fuel.
        covers it; column = columns of the segments before + width of the segment's text before the
        offset), a focused render reports exactly that cell --- *)
 Theorem cursor_cell :
-  forall cw upper s w lay xy,
+  forall cw upper lower s w lay xy,
     find_row cw (disp s) (get_line_translation cw (look s) w lay) (pos s + zlen (caption s)) 0 = Some xy ->
     snd (get_cursor_coords cw s w lay) = xy /\
-    snd (step cw upper s (ERender true w lay))
+    snd (step cw upper lower s (ERender true w lay))
       = Ok (RCoords (fst xy) (snd xy) (zlen (get_line_translation cw (look s) w lay))).
 Proof. exact edit_cursor_cell. Qed.
 Print Assumptions cursor_cell.
@@ -161,13 +164,13 @@ Print Assumptions cursor_cell.
 (* --- the view of a focused Edit keeps the cursor inside the w columns: shown at column x of row y
        by the layout => shown, and drawn, at column clamp(x, 0, w-1) of row y (any wrap mode) --- *)
 Theorem cursor_visible :
-  forall cw (upper : Z -> list Z) s w lay x y,
+  forall cw s w lay x y,
     1 <= w ->
     find_row cw (disp s) lay (pos s + zlen (caption s)) 0 = Some (x, y) ->
     find_row cw (disp s) (get_line_translation cw (look s) w lay) (pos s + zlen (caption s)) 0
       = Some (clampz x 0 (w - 1), y)
     /\ snd (get_cursor_coords cw s w lay) = (clampz x 0 (w - 1), y).
-Proof. exact edit_cursor_visible. Qed.
+Proof. intros cw. exact (edit_cursor_visible cw (fun c => [c]) (fun u => u)). Qed.
 Print Assumptions cursor_visible.
 
 (* --- click_cell: the clicked row of the view is [pad] pre ++ SText sc o e :: post with non-negative
@@ -175,13 +178,13 @@ Print Assumptions cursor_visible.
        the columns of p's cell: button 1 puts the cursor on p (relative to the caption, clamped), returns
        True and remembers the column --- *)
 Theorem click_cell :
-  forall cw upper s w lay col row p x0 c,
+  forall cw upper lower s w lay col row p x0 c,
     let view := get_line_translation cw s w lay in
     snd (position_coords cw s w lay 0) <= row < zlen view ->
     0 <= row ->
     cell_in_row cw (disp s) (nth (Z.to_nat row) view []) p x0 c ->
     (exists ch, nthz (disp s) p = Some ch /\ x0 + c <= col < x0 + c + cw ch) ->
-    step cw upper s (EClick 1 col row w lay) =
+    step cw upper lower s (EClick 1 col row w lay) =
     (with_pref (put s (text s) (clampz (p - zlen (caption s)) 0 (zlen (text s)))) (Some (PInt col, w)),
      [], Ok (RBool true)).
 Proof. exact edit_click_cell. Qed.
@@ -232,13 +235,15 @@ Print Assumptions row_end_on_last_character.
 (* ===== non-vacuity ===== *)
 Definition cw0 (c : Z) : Z := if c =? 19990 then 2 else if c =? 769 then 0 else 1.
 Definition up0 (c : Z) : list Z := [ascii_upper c].
+Definition ascii_lower (c : Z) : Z := if (65 <=? c) && (c <=? 90) then c + 32 else c.
+Definition lo0 (u : list Z) : list Z := map ascii_lower u.
 
 (* "ab\ncd" at width 10, cursor at the end; up goes to the end of "ab"; typing the wide character
    there, backspace, home: texts, offsets, return values and signals are computed by the model *)
 Example run_somewhere :
   let lay := [[SText 2 0 2; SHint 0 2]; [SText 2 3 5; SHint 0 5]] in
   let s0 := init [] [97; 98; 10; 99; 100] None true false None VEdit in
-  let '(s, outs) := run cw0 up0 s0 [EKey KUp 10 lay; EKey (KText [19990]) 10 []; EKey KBackspace 10 [];
+  let '(s, outs) := run cw0 up0 lo0 s0 [EKey KUp 10 lay; EKey (KText [19990]) 10 []; EKey KBackspace 10 [];
                                     EKey KHome 10 lay; EKey KLeft 10 []; EKey (KText [102; 53]) 10 []] in
   (text s, pos s, map (fun o => (pos (fst (fst o)), snd o, length (snd (fst o)))) outs)
   = ([97; 98; 10; 99; 100], 0,
@@ -289,7 +294,15 @@ Proof. vm_compute. repeat split; reflexivity. Qed.
 Example numeric_somewhere :
   let s0 := init [] [45; 49; 50] (Some 0) false false None (integer_variant 10 true) in
   num_ok (num_alpha (takez 10 ALLOWED)) true (text s0) = true /\
-  let '(s, outs) := run cw0 up0 s0 [EKey (KText [53]) 9 []; EKey KRight 9 []; EKey (KText [97]) 9 [];
+  let '(s, outs) := run cw0 up0 lo0 s0 [EKey (KText [53]) 9 []; EKey KRight 9 []; EKey (KText [97]) 9 [];
                                     EKey (KText [55]) 9 []] in
   (text s, pos s, map snd outs) = ([45; 55; 49; 50], 2, [Ok RUnhandled; Ok RHandled; Ok RUnhandled; Ok RHandled]).
 Proof. vm_compute. split; reflexivity. Qed.
+
+(* a case mapping that sends U+017F to "S" (as str.upper does): the key is refused, 's' is accepted *)
+Example foreign_upper_rejected :
+  let up := fun c => if c =? 383 then [83] else [ascii_upper c] in
+  let s0 := init [] [] None false false None (integer_variant 36 false) in
+  let '(s, outs) := run cw0 up lo0 s0 [EKey (KText [383]) 9 []; EKey (KText [115]) 9 []; EKey (KText [83]) 9 []] in
+  (text s, map snd outs) = ([115; 83], [Ok RUnhandled; Ok RHandled; Ok RHandled]).
+Proof. vm_compute. reflexivity. Qed.
